@@ -46,6 +46,7 @@ Fixpoint nvisit (e : expr) (t : nstate) {struct e} : nstate :=
   | EConst _ => t
   | EVar x => n_lookup x t
   | EList items => (fix go l t := match l with [] => t | x :: r => go r (nvisit x t) end) items t
+  | EMap pairs => (fix go (l : list (expr * expr)) t := match l with [] => t | (k, v) :: r => go r (nvisit v (nvisit k t)) end) pairs t
   | ENeg a | ENot a => nvisit a t
   | EBin _ a b | EAnd a b | EOr a b => nvisit b (nvisit a t)
   | ECmp a rest => (fix go (l : list (cmpop * expr)) t := match l with [] => t | (_, x) :: r => go r (nvisit x t) end) rest (nvisit a t)
@@ -97,10 +98,10 @@ Fixpoint nwalk (s : stmt) (t : nstate) {struct s} : nstate :=
       let t := n_assign N_loop t in
       let t := n_pop (walk_list body t) in
       n_pop (match els with Some b => walk_list b (n_push t) | None => n_push t end)
-  | SSet x e => n_assign x (nvisit e t)
+  | SSet tg e => n_assign_target tg (nvisit e t)
   | SSetBlock x body _ => n_assign x (n_pop (walk_list body (n_push t)))
   | SWith binds body =>
-      let t := fold_left (fun t b => n_assign (fst b) (nvisit (snd b) t)) binds (n_push t) in
+      let t := fold_left (fun t b => n_assign_target (fst b) (nvisit (snd b) t)) binds (n_push t) in
       n_pop (walk_list body t)
   | SMacro nm params defaults body => n_assign nm (n_pop (visit_macro true params defaults body (n_push t)))
   | SCallBlock mn args body =>
